@@ -118,9 +118,79 @@ def _install():
     Rule.assert_applies = assert_applies
 
 
+def _install_scans():
+    """Second trace of the suite: every call of an entry point (the module-object entry point calls the path entry
+    point), with the tree as it is on disk at that moment abstracted by harness/wild.py - one `proj` + one `scan`
+    event of Trace_Scan per call."""
+    import pytestarch
+    import pytestarch.pytestarch as entry
+
+    from harness import wild
+    from harness.scandriver import option_logs
+
+    orig = entry.get_evaluable_architecture
+    fh = open(OUT + ".scans", "w")
+    stats = {"scans": 0, "skipped": {}}
+    _state["scan_stats"] = stats
+
+    def skip(why):
+        stats["skipped"][why] = stats["skipped"].get(why, 0) + 1
+
+    def get_evaluable_architecture(root_path, module_path, exclusions=entry.DEFAULT_EXCLUSIONS,
+                                   exclude_external_libraries=True, level_limit=None, regex_exclusions=None,
+                                   external_exclusions=None, regex_external_exclusions=None):
+        args = (root_path, module_path, exclusions, exclude_external_libraries, level_limit, regex_exclusions,
+                external_exclusions, regex_external_exclusions)
+        listed = None
+        try:
+            root_abs, mod_abs = os.path.abspath(str(root_path)), os.path.abspath(str(module_path))
+            if str(root_path) != root_abs or str(module_path) != mod_abs:
+                skip("relative or unnormalised path")
+            elif not (mod_abs == root_abs or mod_abs.startswith(root_abs + os.sep)) or not os.path.isdir(mod_abs):
+                skip("module_path not a directory below root_path")
+            elif (exclusions and regex_exclusions) or (external_exclusions and regex_external_exclusions) or (
+                    exclude_external_libraries and (external_exclusions or regex_external_exclusions)):
+                skip("invalid option combination")
+            else:
+                listed = wild.abstract_inplace(root_abs)
+        except Exception as e:  # noqa: BLE001
+            skip(f"tree outside the input language: {type(e).__name__}")
+            listed = None
+        out, err, obs = "ok", "", {"modules": [], "imports": []}
+        try:
+            ev = orig(*args)
+            obs = _observe(ev)
+            return ev
+        except Exception as e:  # noqa: BLE001
+            out, err = "error", f"{type(e).__name__}: {e}"[:300]
+            raise
+        finally:
+            if listed is not None:
+                base = os.path.dirname(root_abs)
+                mpath = [listed["root"]] + ([] if mod_abs == root_abs else os.path.relpath(mod_abs, root_abs).split(os.sep))
+                excl = ({"kind": "glob", "patterns": list(exclusions)} if exclusions else
+                        {"kind": "regex", "patterns": list(regex_exclusions)} if regex_exclusions else {"kind": "none", "patterns": []})
+                extexcl = ({"kind": "glob", "patterns": list(external_exclusions)} if external_exclusions else
+                           {"kind": "regex", "patterns": list(regex_external_exclusions)} if regex_external_exclusions
+                           else {"kind": "none", "patterns": []})
+                ext = not exclude_external_libraries
+                ex_log, xx_log = option_logs(listed, base, mpath, excl, extexcl, ext)
+                stats["scans"] += 1
+                sid = f"T{stats['scans']}"
+                fh.write(json.dumps({"k": "proj", "id": sid, "first": True, **listed}, separators=(",", ":")) + "\n")
+                fh.write(json.dumps({"k": "scan", "id": sid, "mpath": mpath, "limit": level_limit or 0, "ext": ext,
+                                     "entry": "path", "excl": ex_log, "extexcl": xx_log, "out": out, "err": err, **obs,
+                                     "test": os.environ.get("PYTEST_CURRENT_TEST", "")[:200]}, separators=(",", ":")) + "\n")
+                fh.flush()
+
+    entry.get_evaluable_architecture = get_evaluable_architecture
+    pytestarch.get_evaluable_architecture = get_evaluable_architecture
+
+
 def pytest_configure(config):
     if OUT:
         _install()
+        _install_scans()
 
 
 def pytest_unconfigure(config):
@@ -128,4 +198,5 @@ def pytest_unconfigure(config):
         _state["fh"].close()
     if OUT:
         with open(OUT + ".meta", "w") as f:
-            json.dump({"events": _state["events"], "evaluations": _state["n"], "skipped": _state["skipped"]}, f)
+            json.dump({"events": _state["events"], "evaluations": _state["n"], "skipped": _state["skipped"],
+                       "scan_stats": _state.get("scan_stats", {})}, f)
